@@ -351,6 +351,7 @@ class StmtMixin:
         # 3. assume the invariant in the arbitrary iteration
         for name, text in spec.invariants.items():
             self.assume(self.inv_clause(text, ctx))
+        ctx.iter_state = self.st.copy()
         dec0 = None
         if spec.decreases:
             dec0 = self.eval_tv(spec.decreases, ctx)
@@ -383,6 +384,10 @@ class StmtMixin:
         if inc is not None:
             self.rval(inc)
         self.check_loop_frame(key, hav_ids, mark)
+        for name, text in spec.lemmas.items():
+            g = self.inv_clause(text, ctx)
+            self.oblige('loop_lemma', '%s.%s' % (tag, name), g, 'at the end of the body: ' + text, n)
+            self.assume(g)
         for name, text in spec.invariants.items():
             self.oblige('loop_inv_preserved', '%s.%s' % (tag, name), self.inv_clause(text, ctx), 'preserved: ' + text, n)
         if dec0 is not None:
